@@ -128,6 +128,10 @@ def oracle(case, obs):
     tr = obs["trace"]
     tock, start = case["tock"], case["tyme"]
     final = sc.fl(obs["tyme"])
+    # every listed doer takes part in the run: entered, in list order (static programs, no faults)
+    entered_order = [i for k, i, _ in tr if k == "Enter" and i in case["doers"]]
+    if entered_order != list(case["doers"]):
+        return f"root doers {case['doers']} were given to the run but the doers entered were {entered_order}"
     doist_done = dict((i, d) for i, d in obs["dones"])[0]
     if doist_done is None:
         return "doist.done is None after a run (must be False or True)"
